@@ -253,6 +253,21 @@ pub fn replay_layer(case: &Value, rep: &mut Report) {
     let g = tensor_from(&case["g"]);
     rep.nontrivial(format!("{}", c));
 
+    // ---- announced output shape (the layer's own Display: `in -> out`) = the size formulas (C08) ----
+    let shown = match &layer {
+        AnyLayer::Dense(l) => format!("{}", l),
+        AnyLayer::Conv(l) => format!("{}", l),
+        AnyLayer::Deconv(l) => format!("{}", l),
+        AnyLayer::Pool(l) => format!("{}", l),
+    };
+    if let Some(line) = shown.lines().find(|l| l.contains(" -> ")) {
+        let out: Vec<usize> = line.split(" -> ").nth(1).unwrap_or("").trim().split('x').filter_map(|p| p.trim().parse().ok()).collect();
+        rep.checks += 1;
+        if out != usizes(&case["out"]) {
+            rep.mismatch("C08", &format!("announced_shape:{}", kind), &id, json!({"announced": out, "expected": case["out"]}), case);
+        }
+    }
+
     // ---- forward, both input representations (C02), produced dimensions (C08) ----
     let mut forward_ok = true;
     let mut observed: Option<(Tensor, Tensor, Option<Tensor>)> = None;
